@@ -266,10 +266,20 @@ def init_equalities(ctx: Ctx, cls: ClassInfo, scope: Optional[Set[str]] = None) 
             elif isinstance(a, tuple) and a and a[0] == 'call':
                 pmap.setdefault(a, ('attr', selfk, fld, 0))      # self.f = np.copy(param): the copy *is* self.f
     written_elsewhere = set()
+    # routines that run only as part of the construction (a property setter used by the constructor alone)
+    init_only = roles.dominated_closure({roles.fq(init)}) | {roles.fq(init) + '@setter'}
+    lazy = set()
+    try:
+        from . import caches
+        lazy = set(caches.lazy_caches(ctx, cls))
+    except AnalysisError:
+        pass
     for m in roles.mutations():
         if m.kind in ('attr', 'aug') and not m.init_self and isinstance(m.field, str):
             if scope is not None and roles.fq(m.func) not in scope:
                 continue        # a writer the callers of interest can never reach
+            if roles.fq(m.func) in init_only or m.field in lazy:
+                continue        # part of the construction / a lazily cached derived attribute (rules/caches.py)
             if any(o.cls is not None and o.cls.is_subclass_of(cls) for o in m.bases):
                 written_elsewhere.add(m.field)
     for (bk, fld), v in heap.items():
